@@ -1100,3 +1100,72 @@ Proof.
   exists ids, new_owner. split; [reflexivity|].
   destruct (in_dec Z.eq_dec id ids) as [Hin|Hni]; [exact Hin|]. rewrite (Hc id Hni) in Hp'. congruence.
 Qed.
+
+(* ------------------------------------------------------------------------------------------ *)
+(* handing over: after a transfer / admin change the authority lies with the new owner only     *)
+(* ------------------------------------------------------------------------------------------ *)
+
+Lemma transfer_one_sets_owner s a rcp id s1 : transfer_one s a rcp id = inl s1 ->
+  exists q, find_pos s1 id = Some q /\ p_owner q = rcp.
+Proof.
+  unfold transfer_one. destruct (find_pos s id) as [p|] eqn:F; [|discriminate].
+  intros H. ok_path H. injection H as <-.
+  set (q := mkPos id rcp (p_pool p) (p_liq p) 0 (p_full p)). exists q. split; [|reflexivity].
+  rewrite fp_set, replace_pos_k. rewrite find_pos_k in F. apply (findk_replace_same p_id q _ p). exact F.
+Qed.
+
+Lemma transfer_one_keeps_other s a rcp id s1 id' : transfer_one s a rcp id = inl s1 -> id' <> id -> find_pos s1 id' = find_pos s id'.
+Proof.
+  unfold transfer_one. destruct (find_pos s id) as [p|] eqn:F; [|discriminate].
+  intros H Hne. ok_path H. injection H as <-. rewrite fp_set, replace_pos_k, find_pos_k.
+  apply (findk_replace_other p_id). cbn [p_id]. congruence.
+Qed.
+
+Lemma transfer_all_sets_owner a rcp ids : forall s s', nodupz ids = true -> transfer_all s a rcp ids = inl s' ->
+  forall id, In id ids -> exists q, find_pos s' id = Some q /\ p_owner q = rcp.
+Proof.
+  induction ids as [|i r IH]; intros s s' Hnd H id Hin; [destruct Hin|].
+  cbn [transfer_all nodupz] in *. apply andb_true_iff in Hnd. destruct Hnd as [Hni Hnd]. apply negb_true_iff in Hni.
+  destruct (transfer_one s a rcp i) as [s1|] eqn:E; [|discriminate].
+  destruct (Z.eq_dec id i) as [->|Hne].
+  - (* the later transfers do not name i again *)
+    destruct (transfer_one_sets_owner _ _ _ _ _ E) as (q & Fq & Oq). exists q. split; [|exact Oq].
+    assert (G : forall ids' s2 s3, transfer_all s2 a rcp ids' = inl s3 -> ~ In i ids' -> find_pos s3 i = find_pos s2 i).
+    { induction ids' as [|j r' IH']; intros s2 s3 H2 Hn; cbn [transfer_all] in H2; [injection H2 as <-; reflexivity|].
+      destruct (transfer_one s2 a rcp j) as [s4|] eqn:E4; [|discriminate].
+      rewrite (IH' _ _ H2); [|intros X; apply Hn; right; exact X].
+      apply (transfer_one_keeps_other _ _ _ _ _ _ E4). intros ->. apply Hn. left; reflexivity. }
+    rewrite (G r s1 s' H); [exact Fq|]. intros X. apply memz_In in X. congruence.
+  - destruct Hin as [->|Hin]; [contradiction|]. eapply IH; eauto.
+Qed.
+
+(* after an accepted TransferPositions every listed position belongs to the new owner: the previous owner (and whoever
+   else) is no longer authorised for it, the new owner is *)
+Lemma transfer_hands_over e s a ids rcp s' :
+  step e s a (MTransferPositions ids rcp) = (s', Ok) ->
+  forall id, In id ids -> forall x, owns_pos s' x id = (x =? rcp).
+Proof.
+  intros H id Hin x. apply step_ok_handle in H. cbn [handle] in H. unfold transfer_positions in H.
+  destruct (nodupz ids) eqn:Hnd; [|discriminate]. cbn [negb] in H.
+  destruct (transfer_all_sets_owner _ _ _ _ _ Hnd H id Hin) as (q & Fq & Oq).
+  unfold owns_pos. rewrite Fq, Oq. apply Z.eqb_sym.
+Qed.
+
+(* after an accepted ChangeAdmin the denom's admin is exactly the new one ("" = nobody) *)
+Lemma change_admin_hands_over e s a d new s' :
+  step e s a (MChangeAdmin d new) = (s', Ok) -> admin_of s' d = new.
+Proof.
+  intros H. apply step_ok_handle in H. cbn [handle] in H. unfold tf_change_admin in H. break_if_in H; [discriminate|].
+  destruct (find_denom s d) as [x|] eqn:F; [|discriminate]. injection H as <-.
+  pose proof (find_denom_key _ _ _ F) as E. subst d. unfold admin_of. rewrite find_denom_fd in *. cbn [denoms set_denoms].
+  set (q := mkDenom (d_creator x) (d_sub x) new (d_hook x) (d_desc x)).
+  change (match fd (d_creator q) (d_sub q) (replace_denom q (denoms s)) with Some x0 => d_admin x0 | None => None end = new).
+  rewrite (fd_replace_same q (denoms s) x F). reflexivity.
+Qed.
+
+Lemma change_admin_previous_admin_powerless e s a d new s' x :
+  step e s a (MChangeAdmin d new) = (s', Ok) -> new <> Some x -> is_admin s' d x = false.
+Proof.
+  intros H Hne. unfold is_admin. rewrite (change_admin_hands_over _ _ _ _ _ _ H).
+  destruct new as [y|]; [|reflexivity]. cbn. apply Z.eqb_neq. congruence.
+Qed.
